@@ -27,8 +27,15 @@ pub struct MDBInMemoryShard {
 impl MDBInMemoryShard {
     pub fn add_cas_block(&mut self, cas_block_contents: MDBCASInfo) -> Result<()> {
         let dest_content_v = Arc::new(cas_block_contents);
-        self.cas_content
-            .insert(dest_content_v.metadata.cas_hash, dest_content_v.clone());
+        if let Some(replaced) = self
+            .cas_content
+            .insert(dest_content_v.metadata.cas_hash, dest_content_v.clone())
+        {
+            // The record replaces one with the same hash; take the size of the old one out again.
+            self.current_shard_file_size -= replaced.num_bytes()
+                + (size_of::<u64>() + size_of::<u32>()) as u64
+                + (replaced.chunks.len() * (size_of::<u64>() + 2 * size_of::<u32>())) as u64;
+        }
 
         for (i, chunk) in dest_content_v.chunks.iter().enumerate() {
             self.chunk_hash_lookup
@@ -45,7 +52,10 @@ impl MDBInMemoryShard {
         self.current_shard_file_size += file_info.num_bytes();
         self.current_shard_file_size += (size_of::<u64>() + size_of::<u32>()) as u64;
 
-        self.file_content.insert(file_info.metadata.file_hash, file_info);
+        if let Some(replaced) = self.file_content.insert(file_info.metadata.file_hash, file_info) {
+            // The record replaces one with the same hash; take the size of the old one out again.
+            self.current_shard_file_size -= replaced.num_bytes() + (size_of::<u64>() + size_of::<u32>()) as u64;
+        }
 
         Ok(())
     }
